@@ -150,6 +150,11 @@ pub fn run_history(seed: u64, idx: u64, emit: bool) -> (Vec<i64>, Vec<i64>, Vec<
                 vec![4, *p as i64, (idx % cnt) as i64, nid, is_none(s)]
             }
             Op::Rotate(p) => vec![5, *p as i64],
+            Op::DropChild(p, idx) => {
+                // same effect as remove_child_at_index: the parent is marked dirty, the dropped child becomes a root
+                let cnt = w.t.child_count(w.pool[*p].unwrap()) + 1;
+                vec![3, *p as i64, (idx % cnt) as i64]
+            }
             Op::Reparent(n, p) => vec![6, *n as i64, *p as i64],
             Op::Remove(i) => vec![7, *i as i64],
             Op::SetCtx(i, _) => vec![8, *i as i64],
